@@ -55,28 +55,37 @@ def run : Handler := fun req => do
   let dupFields (l : Loc) : Bool :=
     let fs := if l == .path then decl.map (·.2) else (cps.filter (·.loc == l)).map (fun p => fieldName p.name)
     fs.eraseDups.length != fs.length
-  let model := match parsed, init with
-    | .ok p, .builtin m => Json.mkObj [("http", str m),
+  -- the call that starts the request: `.get(url)` … or `.request(reqwest::Method::OPTIONS, url)`
+  let httpText : List Char := match init with | .builtin m => m | .request m => "reqwest::Method::".toList ++ m
+  -- oas3 0.20.1 `PathItem::methods()` lists TRACE twice: the one TRACE operation is registered twice and two
+  -- (identical) client methods are emitted; "exactly once" is C08's matter (F05-1), here every one is judged
+  let copies : Nat := if method.map Char.toLower == "trace".toList then 2 else 1
+  let model1 := match parsed with
+    | .ok p => Json.mkObj [("http", str httpText),
         ("pushes", Json.arr (p.segments.map Oas3.Driver.Path.segJson).toArray),
         ("query", Json.bool (cps.any (·.loc == .query))), ("headers", Json.bool (cps.any (·.loc == .header))),
         ("body", match firstCt with | some ct => str (bodyEnc ct) | none => Json.null), ("validates_first", Json.bool true)]
-    | .ok _, .request _ => Json.mkObj [("panic", Json.bool true)]
-    | .error _, _ => Json.mkObj [("skipped", Json.bool true)]
+    | .error _ => Json.mkObj [("skipped", Json.bool true)]
+  let model := match parsed with
+    | .ok _ => if copies == 1 then model1 else Json.arr (List.replicate copies model1).toArray
+    | .error _ => model1
   let methods := match fieldD impl "methods" (Json.arr #[]) with | .arr a => a.toList | _ => []
   let implProj := match methods with
     | [m] => project m
     | [] => if (impl.getObjVal? "panic").toOption.isSome then Json.mkObj [("panic", Json.bool true)] else Json.mkObj [("skipped", Json.bool true)]
-    | _ => Json.str "several-methods"
+    | ms => Json.arr (ms.map project).toArray
   -- multipart / xml bodies: the projection records the encoder family only
   let matched := model == implProj
   let judge := Id.run do
     if (impl.getObjVal? "panic").toOption.isSome then
-      return verdict false (match init with | .request _ => ["KnownOptionsTrace"] | _ => []) "generator panicked on this operation"
+      return verdict false [] "generator panicked on this operation"
+    if methods.length > 1 && methods.length != copies then return verdict false [] "several methods for one operation"
+    if methods.length > 1 && !(methods.all fun m => project m == project methods.head!) then return verdict false [] "the methods emitted for one operation differ"
     match methods with
-    | [m] =>
+    | m :: _ =>
       let p := project m
       -- method
-      let okMethod := match init with | .builtin mm => fieldD p "http" Json.null == str mm | .request _ => false
+      let okMethod := fieldD p "http" Json.null == str httpText
       if !okMethod then return verdict false [] "HTTP method of the emitted call differs from the operation's"
       -- path
       let segsJ := (arr (fieldD p "pushes" (Json.arr #[]))).toOption.getD []
@@ -107,7 +116,6 @@ def run : Handler := fun req => do
       match parsed with
       | .error _ => return verdict true []     -- malformed template: operation reported as skipped
       | .ok _ => return verdict false [] "no client method emitted for a well-formed operation"
-    | _ => return verdict false [] "several methods for one operation"
   let branch := (match parsed with | .ok p => (if p.segments.any (fun s => match s with | .mixed .. => true | _ => false) then "mixed" else "plain") | .error _ => "badpath") ++
     (if cps.any (·.loc == .query) then "+q" else "") ++ (if cps.any (·.loc == .header) then "+h" else "") ++ (if firstCt.isSome then "+b" else "") ++
     (if ps.any (·.pathLevel) then "+pl" else "")
